@@ -63,6 +63,14 @@ def decode_table(meta, bodies):
         t.append([lab, rows])
     return t
 
+def call_lost(p, e, acts):
+    """connection_lost as the event loop calls it: an exception escaping it is logged by asyncio and swallowed - the
+    future then stays pending (observed as ["pending"]: the call never ends)"""
+    try:
+        p.connection_lost(e)
+    except Exception as ex:
+        acts.append(["escape", "lost:" + type(ex).__name__])
+
 async def replay(kind, request, decode_body, chunks, exc_label, send_on_connect=True):
     import nauyaca.client.protocol as cp
     cp.MAX_RESPONSE_BODY_SIZE = CAP
@@ -92,15 +100,15 @@ async def replay(kind, request, decode_body, chunks, exc_label, send_on_connect=
             e._from_conn = True
             acts.append(["escape", "header_utf8" if isinstance(e, UnicodeDecodeError) else type(e).__name__])
             per_event.append(acts[m:]); events.append(["data", c])
-            p.connection_lost(e); events.append(["lost", [type(e).__name__]]); per_event.append([])
+            call_lost(p, e, acts); events.append(["lost", [type(e).__name__]]); per_event.append([])
             done = True; break
         per_event.append(acts[m:]); events.append(["data", c])
         if tr.closed:
-            p.connection_lost(None); events.append(["lost", []]); per_event.append([]); done = True; break
+            call_lost(p, None, acts); events.append(["lost", []]); per_event.append([]); done = True; break
     if not done:
         if exc_label:
-            p.connection_lost(InjectedReset(exc_label)); events.append(["lost", [exc_label]])
+            call_lost(p, InjectedReset(exc_label), acts); events.append(["lost", [exc_label]])
         else:
-            p.connection_lost(None); events.append(["lost", []])
+            call_lost(p, None, acts); events.append(["lost", []])
         per_event.append([])
     return fut_obs(fut), per_event, events, delivered
